@@ -55,6 +55,38 @@ def stamp_rules(ctx, m, prefix="stamp"):
     return f
 
 
+
+def loader_counter_rules(ctx, m, loaders):
+    """the loader restores the stamp counter above every stored queue time of a placed order"""
+    ctx.check(len(loaders) == 1, "loader", "found", "-", "snapshot loader found")
+    for f in loaders:
+        lq = m.q(f)
+        r = lq.ret()
+        aggs = [x for x in walk(r) if x[0] == "agg" and x[1] == "adt" and x[2].endswith("OrderBook::OrderBook")]
+        if not aggs:
+            ctx.lost("loader", "loader does not build an OrderBook literal")
+            continue
+        fields = dict(zip(aggs[0][4], aggs[0][3]))
+        v = fields.get(m.f_stamp)
+        maxes = [x for x in walk(v) if x[0] == "call" and x[4] == "max"] if v else []
+        ok = False
+        for mx in maxes:
+            for a in mx[2]:
+                b = bin_of(a)
+                if a[0] == "call" and a[4] in ("saturating_add", "wrapping_add", "checked_add") and len(a[2]) == 2:
+                    b = ("Add", a[2][0], a[2][1])
+                if b and b[0] == "Add" and b[2][0] == "const" and b[2][3] == 1 and b[1][0] == "field" and b[1][2] == "2" and b[1][1][0] == "field" and b[1][1][2] == "key":
+                    ok = True
+        ctx.check(ok, "loader", "counter-restored", ctx.loc(f), "loader: counter <- max over stored entries of (key.2 + 1)",
+                  "loader initialises the stamp counter with %s (expected a running max of key.2 + 1)" % (render(v) if v else "nothing"))
+        # the update is guarded at most by `status != New`
+        for c in lq.calls("max"):
+            extra = [a for a in c.guards if not (a[0] == "variant" and a[2] == ("Some",)) and not (
+                a[0] == "cmp" and a[1] == "ne" and a[2][0] == "field" and a[2][2] == "status" and a[3][0] == "agg" and a[3][2].endswith("Status::New"))]
+            ctx.check(not extra and lq.cfg.in_loop(c.b), "loader", "counter-covers-all", c.loc(), "the running max visits every placed (non-New) stored order",
+                      "the running max skips entries under: %s" % c.gtext())
+
+
 def run(ctx):
     m = Model(ctx)
     ins = m.side_inner("insert_order")
@@ -110,34 +142,7 @@ def run(ctx):
     ok = len(pc) == 1 and pc[0].args[1][0] == "agg" and len(pc[0].args[1][3]) == 2 and pc[0].args[1][3][1][0] == "field" and pc[0].args[1][3][1][2] == "2"
     ctx.check(ok, "key-injective", "map-key", ctx.loc(ins), "the priority map key contains the order key's queue-time component (key.2)",
               "the priority map key does not contain key.2")
-    # loader
-    ctx.check(len(loaders) == 1, "loader", "found", "-", "snapshot loader found")
-    for f in loaders:
-        lq = m.q(f)
-        r = lq.ret()
-        aggs = [x for x in walk(r) if x[0] == "agg" and x[1] == "adt" and x[2].endswith("OrderBook::OrderBook")]
-        if not aggs:
-            ctx.lost("loader", "loader does not build an OrderBook literal")
-            continue
-        fields = dict(zip(aggs[0][4], aggs[0][3]))
-        v = fields.get(m.f_stamp)
-        maxes = [x for x in walk(v) if x[0] == "call" and x[4] == "max"] if v else []
-        ok = False
-        for mx in maxes:
-            for a in mx[2]:
-                b = bin_of(a)
-                if a[0] == "call" and a[4] in ("saturating_add", "wrapping_add", "checked_add") and len(a[2]) == 2:
-                    b = ("Add", a[2][0], a[2][1])
-                if b and b[0] == "Add" and b[2][0] == "const" and b[2][3] == 1 and b[1][0] == "field" and b[1][2] == "2" and b[1][1][0] == "field" and b[1][1][2] == "key":
-                    ok = True
-        ctx.check(ok, "loader", "counter-restored", ctx.loc(f), "loader: counter <- max over stored entries of (key.2 + 1)",
-                  "loader initialises the stamp counter with %s (expected a running max of key.2 + 1)" % (render(v) if v else "nothing"))
-        # the update is guarded at most by `status != New`
-        for c in lq.calls("max"):
-            extra = [a for a in c.guards if not (a[0] == "variant" and a[2] == ("Some",)) and not (
-                a[0] == "cmp" and a[1] == "ne" and a[2][0] == "field" and a[2][2] == "status" and a[3][0] == "agg" and a[3][2].endswith("Status::New"))]
-            ctx.check(not extra and lq.cfg.in_loop(c.b), "loader", "counter-covers-all", c.loc(), "the running max visits every placed (non-New) stored order",
-                      "the running max skips entries under: %s" % c.gtext())
+    loader_counter_rules(ctx, m, loaders)
     ctx.note("Env/MarketEnv::step give instruction i the time start+i with no relation between batch length and step_size; "
              "when a batch is longer than step_size uniqueness rests entirely on the stamp rule above")
     ctx.assume("queue times stay below 2^64 - 1")
